@@ -17,7 +17,8 @@ def beta_cs_any(a, b, x, y, dps_extra=0):
     otherwise panel-wise tanh-sinh quadrature of the density on BOTH sides (sum checked against 1)."""
     def nterms(a_, b_, x_, y_):
         hump = max(mpf(0), (x_ * (a_ + b_) - a_ - 1) / y_)
-        return hump + 250 / (-mp.log1p(-y_))
+        # beyond the hump the terms fall like exp(-y (j-hump)^2 / (2 (a+hump))) and finally like x^j
+        return hump + 22 * mp.sqrt((a_ + hump) / y_) + 250 / (-mp.log1p(-y_))
     if min(nterms(a, b, x, y), nterms(b, a, y, x)) < 3e5:
         old = gc.CHECK_QUAD
         gc.CHECK_QUAD = (a + b) < 1e7
@@ -112,11 +113,11 @@ class HyperRef:
         want = sorted(set(k for k in ks if lo <= k <= hi))
         with mp.workdps(45):
             mode = min(hi, max(lo, ((n + 1) * (K + 1)) // (N + 2)))
-            lp = (mp.loggamma(K + 1) - mp.loggamma(mode + 1) - mp.loggamma(K - mode + 1)
-                  + mp.loggamma(N - K + 1) - mp.loggamma(n - mode + 1) - mp.loggamma(N - K - n + mode + 1)
-                  - mp.loggamma(N + 1) + mp.loggamma(n + 1) + mp.loggamma(N - n + 1))
-            with mp.workdps(45 + 2 * len(str(N))):
-                pmode = +mp.exp(lp)
+            with mp.workdps(50 + 2 * len(str(N))):
+                lp = (mp.loggamma(K + 1) - mp.loggamma(mode + 1) - mp.loggamma(K - mode + 1)
+                      + mp.loggamma(N - K + 1) - mp.loggamma(n - mode + 1) - mp.loggamma(N - K - n + mode + 1)
+                      - mp.loggamma(N + 1) + mp.loggamma(n + 1) + mp.loggamma(N - n + 1))
+                pmode = mp.exp(lp)
             pmode = +pmode
             self.pmf = {mode: pmode}
             # upward: U(j) = sum_{i=mode+1}^{j} pmf(i)
